@@ -77,6 +77,7 @@ type Machine struct {
 	TolerantInit                              func(pkgPath string) bool
 	Stubs                                     map[string]*ssa.Function // full function name -> replacement (per-harness stubs of /repo functions)
 	NoopPkgs                                  func(pkgPath string) bool
+	vfiles                                    map[string]Str
 	CrossEvery                                int // cross-check every n-th assertion query with z3-new and cvc5 (0 = never)
 	crossCount                                int
 	CrossChecked, CrossAgreed, CrossUndecided int
@@ -112,6 +113,7 @@ func NewMachine(prog *ssa.Program, solver *Solver) *Machine {
 	registerModels(m)
 	registerCodecs(m)
 	registerSched(m)
+	registerVFS(m)
 	return m
 }
 
